@@ -37,6 +37,8 @@ pub struct Stats {
     pub counters: BTreeMap<String, u64>,
     pub signatures: BTreeSet<u64>,
     pub nontrivial_signatures: BTreeSet<u64>,
+    /// named sets of hashes (distinct update-path-tree shapes, distinct event logs, ...)
+    pub sets: BTreeMap<String, BTreeSet<u64>>,
 }
 
 impl Stats {
@@ -47,8 +49,21 @@ impl Stats {
         for (k, v) in &o.counters {
             *self.counters.entry(k.clone()).or_insert(0) += v;
         }
+        for (k, v) in &o.sets {
+            self.sets.entry(k.clone()).or_default().extend(v.iter().copied());
+        }
         self.signatures.extend(o.signatures.iter().copied());
         self.nontrivial_signatures.extend(o.nontrivial_signatures.iter().copied());
+    }
+    pub fn add_to_set(&mut self, set: &str, h: u64) {
+        self.sets.entry(set.to_string()).or_default().insert(h);
+    }
+    pub fn set_sizes(&self) -> Value {
+        let mut m = Map::new();
+        for (k, v) in &self.sets {
+            m.insert(k.clone(), json!(v.len()));
+        }
+        Value::Object(m)
     }
     pub fn group(&self, prefix: &str) -> Value {
         let mut m = Map::new();
@@ -98,6 +113,7 @@ pub fn write_evidence(e: EvidenceInput) {
         "faults_fired": e.stats.group("fault."),
         "faults_configured": e.stats.group("cfg."),
         "probes": e.stats.group("probe."),
+        "distinct_by_measure": e.stats.set_sizes(),
         "discarded": e.stats.group("discard."),
         "steps": e.stats.group("step."),
         "real_vs_stub": e.real_vs_stub,
